@@ -79,7 +79,6 @@ func (c *RepoCacheBug) ResolveComment(prefix string) (*BugCache, entity.Combined
 
 	matchingBugIds := make([]entity.Id, 0, 5)
 	matchingCommentId := entity.UnsetCombinedId
-	var matchingBug *BugCache
 
 	// search for matching comments
 	// searching every bug candidate allow for some collision with the bug prefix only,
@@ -93,7 +92,6 @@ func (c *RepoCacheBug) ResolveComment(prefix string) (*BugCache, entity.Combined
 		for _, comment := range b.Snapshot().Comments {
 			if comment.CombinedId().HasPrefix(prefix) {
 				matchingBugIds = append(matchingBugIds, bugId)
-				matchingBug = b
 				matchingCommentId = comment.CombinedId()
 			}
 		}
@@ -103,6 +101,14 @@ func (c *RepoCacheBug) ResolveComment(prefix string) (*BugCache, entity.Combined
 		return nil, entity.UnsetCombinedId, entity.NewErrMultipleMatch("bug/comment", matchingBugIds)
 	} else if len(matchingBugIds) == 0 {
 		return nil, entity.UnsetCombinedId, errors.New("comment doesn't exist")
+	}
+
+	// Resolve the matching bug only now: loading the other candidates may have evicted
+	// (and locked for ever) the instance seen in the loop. The entity returned by the
+	// last Resolve is the most recently used one, which is never evicted.
+	matchingBug, err := c.Resolve(matchingBugIds[0])
+	if err != nil {
+		return nil, entity.UnsetCombinedId, err
 	}
 
 	return matchingBug, matchingCommentId, nil
